@@ -71,6 +71,7 @@ class Program:
         self.enums = dict(STD_ENUMS)
         self.enum_discr = dict(STD_DISCR)
         self.structs = {}         # name -> [field names]
+        self.struct_field_types = {}   # (struct, field) -> declared type text
         self.enum_fields = {}     # (enum, variant) -> [field names] for struct-like variants
         self.resolve_cache = {}
         self.const_cache = {}
@@ -203,8 +204,10 @@ class Program:
                     for item in _split_items(body):
                         if _cfg_disabled(item): continue
                         item = re.sub(r'#\[[^\]]*\]', '', item).strip()
-                        mm = re.match(r'(?:pub(?:\([^)]*\))?\s+)?(\w+)\s*:', item)
-                        if mm: fields.append(mm.group(1))
+                        mm = re.match(r'(?:pub(?:\([^)]*\))?\s+)?(\w+)\s*:\s*(.*)', item, re.S)
+                        if mm:
+                            fields.append(mm.group(1))
+                            self.struct_field_types.setdefault((m.group(1), mm.group(1)), mm.group(2).strip())
                     self.structs.setdefault(m.group(1), fields)
 
     # callee resolution ------------------------------------------------------------------------
